@@ -12,10 +12,10 @@ ids=$(cd seeded_controls && ls -d $PAT 2>/dev/null | grep '^R[0-9]')
 source <(sed -n '/^props_for() {/,/^}/p' matrix.sh)
 lane() {
   local i=$1; shift
-  local wt=/tmp/cx_lane_$i
+  local wt=/tmp/cx_lane_$$_$i
   git -C $R worktree remove --force $wt >/dev/null 2>&1; rm -rf $wt
   git -C $R worktree add -q --detach $wt HEAD || return
-  export VERIF_REPO=$wt VERIF_OUT=/tmp/cx_out_$i
+  export VERIF_REPO=$wt VERIF_OUT=/tmp/cx_out_$$_$i
   mkdir -p $VERIF_OUT
   for id in "$@"; do
     d=seeded_controls/$id
